@@ -122,6 +122,9 @@ fn probably_string(c: u8, off: u8) -> bool {
 }
 
 fn dos33_bload_range(img: &[u8]) -> Result<[usize;2],DYNERR> {
+    if img.len() < 0xaa74 {
+        return Err(Box::new(lang::Error::OutOfRange));
+    }
     let start = img[0xaa72] as usize + img[0xaa73] as usize * 0x100;
     let length = img[0xaa60] as usize + img[0xaa61] as usize * 0x100;
     let end = start + length;
@@ -131,6 +134,9 @@ fn dos33_bload_range(img: &[u8]) -> Result<[usize;2],DYNERR> {
     Ok([start,end])
 }
 fn prodos_bload_range(img: &[u8]) -> Result<[usize;2],DYNERR> {
+    if img.len() < 0xbeca {
+        return Err(Box::new(lang::Error::OutOfRange));
+    }
     let start = img[0xbeb9] as usize + img[0xbeba] as usize * 0x100;
     let length = img[0xbec8] as usize + img[0xbec9] as usize * 0x100;
     let end = start + length;
@@ -443,6 +449,10 @@ impl Disassembler {
             DasmRange::LastBloadProDos => prodos_bload_range(img)?,
             DasmRange::Range([beg,end]) => [beg,end]
         };
+        // the range comes from the caller (the language server passes on what the client sent)
+        if addr_range[1] > img.len() {
+            return Err(Box::new(lang::Error::OutOfRange));
+        }
 		let mut addr = addr_range[0];
 
 		self.dasm_lines = Vec::new();
